@@ -24,6 +24,9 @@ def pick(r, xs):
 
 def gen_beat(r, for_evaluate=False):
     base = 5.0 if (for_evaluate or r.random() < 0.5) else 0.0
+    if r.random() < 0.12:
+        ref, est = gen.goto_pair(r, base=base)
+        return {"ref": ref, "est": est, "cls": "goto-runs"}
     ref = gen.events(r, base=base, max_n=20)
     est = gen.related_events(r, ref, base=base)
     cls = "%s/%s" % (_size_cls(ref.size), _size_cls(est.size))
@@ -359,7 +362,10 @@ def calls_melody(inp, r):
 def eval_melody(inp, r):
     kw = draw_params(r, {"cent_tolerance": [50, 25, 100],
                          "hop": [None, 1 / 64, 1 / 32, 1 / 16],
-                         "base_frequency": [10.0, 20.0]}, 0.6)
+                         # incl. bases above the pitch range (negative cents);
+                         # never a value on the pitch lattice (f == base is 0 cents,
+                         # which the library reads as "no pitch")
+                         "base_frequency": [10.0, 20.0, 100.0, 300.0, 1000.0]}, 0.6)
     args = (inp["ref_time"], inp["ref_freq"], inp["est_time"], inp["est_freq"],
             inp["est_voicing"], inp["ref_reward"])
     return args, kw
